@@ -533,11 +533,33 @@ def r_hermitian_vars(ctx, f, sk: Skeleton, rule="R-DTYPE", allow_real=()):
     n = 0
     for v in sk.vars:
         sh = v.shape
-        is_matrix = sh is not None and sh[0] == "tuple" and len(sh) == 3
+        is_matrix = sh is not None and ((sh[0] == "tuple" and len(sh) == 3) or (sh[0] == "attr" and sh[-1] == "shape"))
         if not is_matrix or v.name in allow_real:
             continue
         n += 1
-        herm = v.attrs.get("hermitian") == ("c", True) or v.attrs.get("complex") == ("c", True)
+        herm = v.attrs.get("hermitian") == ("c", True) or v.attrs.get("complex") == ("c", True) or v.ctor.endswith("ComplexVariable")
+        # complex= / hermitian= computed at run time from the data (np.iscomplexobj(x)): sound only if the test covers EVERY operand of the
+        # programme; a flag computed from one of several array arguments gives a real variable whenever that one happens to be real
+        flag = next((v.attrs[k] for k in ("complex", "hermitian") if k in v.attrs and v.attrs[k][0] != "c"), None)
+        if not herm and flag is not None:
+            from .rules import _array_params
+            from .norm import mentions_name as _mn, show as _show
+            import ast as _ast
+            arrs = [p_ for p_ in _array_params(f)]
+            # methods: the object's array attributes (self.pred_mat, self.prob_mat) are operands too; a flag that is a local name is expanded once
+            selfattrs = sorted({x.attr for x in _ast.walk(f.node) if isinstance(x, _ast.Attribute) and isinstance(x.value, _ast.Name) and x.value.id == "self" and x.attr.endswith("_mat")})
+            ftxt = repr(flag)
+            for x in _ast.walk(f.node):
+                if isinstance(x, _ast.Assign) and len(x.targets) == 1 and isinstance(x.targets[0], _ast.Name) and _mn(flag, x.targets[0].id):
+                    ftxt += " " + _ast.dump(x.value)
+            arrs = arrs + [f"self.{a}" for a in selfattrs]
+            seen = [p_ for p_ in arrs if (_mn(flag, p_) if not p_.startswith("self.") else (f"'{p_[5:]}'" in ftxt))]
+            if len(arrs) >= 2 and len(seen) < len(arrs) and seen:
+                ctx.ob(rule, f, f"matrix variable `{v.name}` is Hermitian (complex), not real symmetric", False,
+                       f"`{v.name}` is complex only when `{_show(flag)[:60]}` holds: the flag looks at {', '.join(seen)} but not at {', '.join(a for a in arrs if a not in seen)} -- with a real "
+                       f"{seen[0]} and a complex {[a for a in arrs if a not in seen][0]} the variable is real, the feasible set shrinks and the value is no longer symmetric in the two arguments", v.node)
+                continue
+            herm = None
         if not herm and "chosen_by" in v.attrs:
             import re as _re
             # a run-time choice between a complex and a real class is sound only if the test covers the whole data; a test of one
